@@ -229,6 +229,18 @@ chk("C17", "exploration",
     "TLA+ spec CifModel.tla (rule table, configuration product enumerated by TLC) + Multiplicity.tla; generated files replayed into build_atomlist",
     "DESIGN.md section 7 C17")
 
+chk("C14", "exploration",
+    "Conventions.tla declares the 2pi-weight of every representation and the weight signature of the 41 shared functions (the refinement "
+    "mapping tools <-> laue) and runs a weight machine over the body of every function that touches 2*pi (a unit analysis: product adds, "
+    "inverse negates, *2pi/ /2pi shift, calls demand the callee's weights); it flags exactly tools.ubi_to_u_and_eps. The harness then calls "
+    "every shared function in both modules on inputs from the exact lattices (own TLC emissions of Cell, Orient, GenHkl, Omega, Strain; "
+    "Pythagorean angles), maps arguments and results through the weights and compares at 1e-12 (integer rows exactly, same numpy seed for "
+    "the generators). Coverage is counted per function and a function without a compared call fails the check.",
+    "Differential conformance driven by the specification, not a proof; TLC contributes the mapping, the unit analysis and the inputs. The "
+    "known finding of C13 (tools.ubi_to_u_and_eps) is the one listed deviation.",
+    "TLA+ spec Conventions.tla (weight signatures + unit-analysis machine) model-checked by TLC; differential execution of all 41 shared functions",
+    "DESIGN.md section 7 C14")
+
 ALL = ["C%02d" % i for i in range(1, 21)]
 
 
